@@ -33,6 +33,15 @@ CHECKS = {
  "C12": ("exploration", "c12-roundtrip", "round-trip PBT: exhaustive small value domain + Hypothesis JSON values + boundary list through every entry point, read back through a fresh object with a leaf-type-exact comparison",
          "Every value is stored through every entry point at four target depths over an empty or an existing (==-colliding) prior value, then read through a fresh collection object and from the raw resource; equality and JSON leaf types must match exactly.",
          "NaN/inf/lone surrogates excluded; MongoDB ints <= 64 bit; fakes for Redis/MongoDB/Zarr", "3 C12"),
+ "C16": ("exploration", "c16-aliasing", "metamorphic PBT (Hypothesis): mutate-the-argument/result-afterwards must change nothing; cross-assignment must copy",
+         "Generated inbound (all entry points, also inside buffered contexts), outbound (every container-returning API) and cross-assignment cases for all 18 classes; every container reachable from the user-held value is mutated afterwards and the object, a fresh object and the raw resource must be unchanged; (), values(), items() must be built-in data at every depth.",
+         "pop/popitem/del: only 'mutating the removed value changes nothing' is required; fakes for Redis/MongoDB/Zarr", "3 C16"),
+ "C17": ("exploration", "roworld", "stateful PBT (Hypothesis) of read-only programs with an audit-hook recorder and stat/bytes/listing invariants after every step",
+         "Generated read-only programs (every read API, comparisons, repr/str, nested reads, context enter/exit) on existing and missing resources for all 18 classes; after every step no write event was audited, the file's bytes/inode/mtime and the directory listing are unchanged and the fakes counted no mutating call.",
+         "audit hooks see Python-level file operations; fakes count set/replace_one/require_dataset/__setitem__", "3 C17"),
+ "C18": ("exploration", "famworld+attr", "stateful PBT (Hypothesis): node-class/_root invariant after every step of mutator/rewrite/context programs; differential attribute-vs-item programs on attr dicts against a plain dict",
+         "Part (a): after every step of generated programs (mutators, kind-changing outside rewrites, buffered contexts) every reachable node has exactly the family's dict/list class and the right root, and the deepest node persists a write. Part (b): generated get/set/del programs in attribute and item syntax over key pools incl. every protected name, public method name and dunders, at depth 0-3.",
+         "attribute set/del of live internals not generated (reconfigures the object by design)", "3 C18"),
 }
 
 def main():
@@ -68,6 +77,9 @@ def main():
             {"name": "c07-scenarios", "path": "vf/props/c07.py", "serves_properties": ["C07"], "kind_free_text": "scenario generator/enumerator with an outside writer"},
             {"name": "c11-product", "path": "vf/props/c11.py", "serves_properties": ["C11"], "kind_free_text": "finite product enumerator"},
             {"name": "c12-roundtrip", "path": "vf/props/c12.py", "serves_properties": ["C12"], "kind_free_text": "value round-trip through a fresh object"},
+            {"name": "c16-aliasing", "path": "vf/props/c16.py", "serves_properties": ["C16"], "kind_free_text": "aliasing metamorphic cases"},
+            {"name": "roworld", "path": "vf/props/c17.py", "serves_properties": ["C17"], "kind_free_text": "read-only bufworld + audit hooks (vf/audit.py)"},
+            {"name": "famworld+attr", "path": "vf/props/c18.py", "serves_properties": ["C18"], "kind_free_text": "family-closure world and attribute/item differential programs"},
             {"name": "world", "path": "vf/world.py", "serves_properties": ["C01", "C02", "C03", "C04"], "kind_free_text": "interpreter of generated step lists against the library and a plain dict/list model (Hypothesis-driven), with replay and minimisation"},
         ],
         "checks": checks,
